@@ -58,7 +58,7 @@ var Profiles = map[string]*Profile{
 	"C06":   {Name: "C06", MaxOps: 25, UniqueMin: 1, UniqueMax: 2, IndexPct: 25, CasePct: 15, W: map[string]int{"update": 35}},
 	"C06F":  {Name: "C06F", MaxOps: 10, ForceSync: true, UniqueMax: 1, IndexPct: 25, CasePct: 10, W: map[string]int{"update": 35, "del": 12, "many": 8, "bulk": 4, "reopen": 1, "abandon": 0, "sweep": 1, "reads": 1, "create": 1, "sdel": 0, "drop": 0}},
 	"C06FA": {Name: "C06FA", MaxOps: 10, ForceAsync: true, UniqueMax: 1, IndexPct: 25, CasePct: 10, W: map[string]int{"update": 35, "del": 12, "many": 8, "bulk": 4, "reopen": 1, "abandon": 0, "sweep": 1, "reads": 1, "create": 0, "sdel": 0, "sleep": 4, "await": 0, "flush": 4, "small": 1, "drop": 0}},
-	"C07":   {Name: "C07", MaxOps: 20, UniqueMin: 0, UniqueMax: 2, IndexPct: 20, CasePct: 15, W: map[string]int{"many": 35, "bulk": 25, "save": 15, "update": 10}},
+	"C07":   {Name: "C07", MaxOps: 20, UniqueMin: 0, UniqueMax: 2, IndexPct: 20, CasePct: 25, W: map[string]int{"many": 35, "bulk": 25, "save": 15, "update": 10}},
 	"C08":   {Name: "C08", MaxOps: 8, UniqueMax: 1, IndexPct: 15, CasePct: 10},
 	"C10": {Name: "C10", MaxOps: 25, ForceAsync: true, AsyncOracles: true, UniqueMax: 1, IndexPct: 20, CasePct: 10,
 		W: map[string]int{"save": 30, "update": 30, "del": 14, "sdel": 5, "delall": 2, "flush": 10, "sleep": 8, "await": 12, "reopen": 5, "sweep": 3, "reads": 6, "create": 14, "many": 6, "bulk": 2}},
@@ -71,7 +71,7 @@ var Profiles = map[string]*Profile{
 	"C15": {Name: "C15", MaxOps: 20, UniqueMax: 1, IndexPct: 20, CasePct: 50, W: map[string]int{"many": 15, "bulk": 10}},
 	"C16": {Name: "C16", MaxOps: 25, UniqueMin: 0, UniqueMax: 2, IndexPct: 30, CasePct: 75, W: map[string]int{"sweep": 14, "reopen": 8}},
 	"C18": {Name: "C18", MaxOps: 20, UniqueMax: 1, IndexPct: 30, CasePct: 15, W: map[string]int{"sweep": 12, "reopen": 8}},
-	"C20": {Name: "C20", MaxOps: 30, UniqueMax: 1, IndexPct: 60, CasePct: 10, W: map[string]int{"hold": 22, "collect": 22, "sweep": 2, "reads": 2}},
+	"C20": {Name: "C20", MaxOps: 30, UniqueMax: 1, IndexPct: 60, CasePct: 10, W: map[string]int{"hold": 22, "collect": 22, "sweep": 2, "reads": 2, "repair": 8}},
 }
 
 // Tags owned by each property (first-divergence attribution).
